@@ -227,6 +227,31 @@ def toWireC (out : Bytes) (t : CTable) (n : Name) (origin : Option Name) : Excep
     | some o => if isAbs o then .ok (toWireCLoop out t (n ++ o)) else .error .needAbsolute
     | none => .error .needAbsolute
 
+/-- `Name.to_wire(file, compress, origin, canonicalize)` — the file-writing path, with or without a
+compression table.  The label sequence is the name's own labels or, for a relative name, those followed by
+the origin's; the first thing the loop does is construct `Name(labels[0:])`, whose validation refuses an
+over-long combination (NameTooLong) before anything is written.  With `canonicalize` the labels are written
+lower-cased; the table is consulted with the library's case-insensitive equality, so the lower-cased
+sequence is what the model hands to the loop (table keys are compared up to case anyway). -/
+def toWireF (out : Bytes) (t : Option CTable) (n : Name) (origin : Option Name) (canon : Bool) :
+    Except NameErr (Bytes × Option CTable) :=
+  let full : Except NameErr Name :=
+    if isAbs n then .ok n
+    else match origin with
+      | some o => if isAbs o then .ok (n ++ o) else .error .needAbsolute
+      | none => .error .needAbsolute
+  match full with
+  | .error e => .error e
+  | .ok labels =>
+    match validate labels with
+    | .error e => .error e
+    | .ok _ =>
+      match t with
+      | none => .ok (out ++ toWire (if canon then lowerName labels else labels), none)
+      | some tb =>
+        .ok ((toWireCLoop out tb (if canon then lowerName labels else labels)).1,
+             some (toWireCLoop out tb (if canon then lowerName labels else labels)).2)
+
 /-! ## name operations -/
 
 def mkName (n : Name) : Except NameErr Name := validate n
